@@ -1,2 +1,84 @@
--- stub: replaced by the slice's driver
-def main : IO Unit := IO.println "stub"
+import TriompheModel.Model.AutoTraits
+import TriompheModel.Generated.Traits
+import TriompheModel.Generated.Signatures
+/-!
+`drv_traits`: the executable model M7 at the generated tables, behind a line protocol.
+One answer line per input line.
+
+```
+send  <Kind> <cls> [<cls>]     -> true | false | error:<why>      (cls = [s|n][s|n][z|u]?: send? sync? sized/unsized)
+sync  <Kind> <cls> [<cls>]     -> true | false | error:<why>
+wf    <Kind> <cls> [<cls>]     -> true | false                     (struct declaration admits the arguments)
+region <Head::fn>              -> bounded | unbounded | missing    (all extracted signatures with that key)
+tie    <Head::fn>              -> recv | selflt | mixed | unbounded | none | missing
+hr     <Head::fn>              -> hr | nothr | nocallback | missing
+owns   <Kind>                  -> true | false                     (ownership marker for every type parameter)
+bmark  <Kind>                  -> true | false                     (PhantomData<&'a T> / enum of such)
+keys                           -> space-separated keys of the obligated signatures
+```
+-/
+open FactsTraits AutoTraits
+
+def tables : Tables := ⟨Generated.structs, Generated.autoImpls⟩
+
+def parseClass (s : String) : Option Class :=
+  match s.toList with
+  | [a, b] => if (a == 's' || a == 'n') && (b == 's' || b == 'n') then some ⟨a == 's', b == 's', true⟩ else none
+  | [a, b, c] =>
+    if (a == 's' || a == 'n') && (b == 's' || b == 'n') && (c == 'z' || c == 'u') then
+      some ⟨a == 's', b == 's', c == 'z'⟩ else none
+  | _ => none
+
+def parseClasses (ws : List String) : Option (List Class) :=
+  ws.foldr (fun w acc => match parseClass w, acc with
+    | some c, some cs => some (c :: cs)
+    | _, _ => none) (some [])
+
+def sigsFor (k : String) : List Sig := Generated.sigs.filter (fun s => s.key == k && s.obligated)
+
+def answer (ws : List String) : String :=
+  match ws with
+  | "send" :: k :: cls | "sync" :: k :: cls | "wf" :: k :: cls =>
+    match parseClasses cls with
+    | none => "error:bad-class"
+    | some cs =>
+      if arity tables k == 0 then "error:unknown-kind"
+      else if arity tables k != cs.length then "error:arity"
+      else
+        let b := match ws.head! with
+          | "send" => isSend tables k cs
+          | "sync" => isSync tables k cs
+          | _ => wfArgs tables k cs
+        toString b
+  | ["region", k] =>
+    match sigsFor k with
+    | [] => "missing"
+    | ss => if ss.all regionBounded then "bounded" else "unbounded"
+  | ["tie", k] =>
+    match (sigsFor k).filter (fun s => !s.outRegions.isEmpty) with
+    | [] => "missing"
+    | s :: rest => if rest.all (fun r => r.tie == s.tie) then s.tie else "mixed"
+  | ["hr", k] =>
+    match sigsFor k with
+    | [] => "missing"
+    | ss =>
+      if ss.all (fun s => s.callbacks.isEmpty) then "nocallback"
+      else if ss.all (fun s => s.callbacks.all higherRanked) then "hr" else "nothr"
+  | ["owns", k] => toString (ownsAll tables k)
+  | ["bmark", k] => toString (borrowMarker tables k || borrowEnumMarker tables k)
+  | ["keys"] => " ".intercalate ((Generated.sigs.filter Sig.obligated).map (·.key))
+  | _ => "error:bad-line"
+
+partial def loop (h : IO.FS.Stream) (out : IO.FS.Stream) : IO Unit := do
+  let line ← h.getLine
+  if line.isEmpty then return
+  let ws := (line.trimAscii.toString.splitOn " ").filter (· != "")
+  if !ws.isEmpty then
+    out.putStrLn (answer ws)
+  loop h out
+
+def main : IO Unit := do
+  let stdin ← IO.getStdin
+  let stdout ← IO.getStdout
+  loop stdin stdout
+  stdout.flush
